@@ -104,11 +104,13 @@ def rdf_item(it):
     return Triple(*ts) if it[0] == "T" else Quad(*ts)
 
 
-def rdf_store(items, bindings=()):
+def rdf_store(items, bindings=(), empty_graphs=()):
     import rdflib
 
     quads = any(i[0] == "Q" for i in items)
     g = rdflib.Dataset() if quads else rdflib.Graph()
+    for eg in empty_graphs:
+        g.graph(rdflib.URIRef(eg))      # an empty named graph
     for name, iri in bindings:
         g.bind(name, rdflib.URIRef(iri), override=True, replace=True)
     for it in items:
@@ -138,9 +140,16 @@ def rdf_serialize(items, phys, options, entry="stream_frames", bindings=()):
     elif entry == "graph_serialize":
         from vpkg.hutil import notrace
         with notrace():  # rdflib store construction is concrete set-up (T3)
-            store = rdf_store(items, bindings)
+            store = rdf_store(items, bindings, empty_graphs=getattr(options, "_vp_empty_graphs", ()))
         stream = PHYS_STREAM[phys].for_rdflib(options)
         store.serialize(out, format="jelly", stream=stream, options=options)
+    elif entry == "graph_serialize_stream_only":
+        # the caller hands over a pre-built stream and NO options (they are then guessed by the serializer)
+        from vpkg.hutil import notrace
+        with notrace():
+            store = rdf_store(items, bindings)
+        stream = PHYS_STREAM[phys].for_rdflib(options)
+        store.serialize(out, format="jelly", stream=stream)
     else:
         raise ValueError(entry)
     return out.getvalue()
